@@ -4,6 +4,7 @@
 // itself writes an arbitrary byte stream to B and closes it.  Observed: was each send accepted; the messages B's handler got
 // (in order: length, checksum, first bytes) and how B's session ended.
 #include "common.hpp"
+#include <atomic>
 #include <condition_variable>
 #include <mutex>
 #include <random>
@@ -73,6 +74,36 @@ int main() {
             ::close(raw[1]); ::close(sv[0]);
             return;
         }
+        if (mode == 4) {
+            // n messages sent by four threads at the same time (each thread takes every fourth message)
+            if (!A->adopt_outbound_socket(idb, sv[0], true)) { out.put(-10); return; }
+            const i64 n = in.next();
+            std::vector<std::vector<std::uint8_t>> payloads;
+            for (i64 i = 0; i < n; ++i) {
+                const i64 len = in.next(), seed = in.next();
+                for (int k = 0; k < 13; ++k) in.next();      // nonce and rekey flag: unused here (nonces come from the constant device)
+                payloads.push_back(pattern(len, seed));
+            }
+            hvrd::script.clear(); hvrd::pos = 0;
+            std::atomic<std::size_t> accepted{0};
+            std::atomic<int> ready{0};
+            std::vector<std::thread> threads;
+            for (int t = 0; t < 4; ++t) threads.emplace_back([&, t] {
+                ++ready; while (ready.load() < 4) { }
+                for (std::size_t i = static_cast<std::size_t>(t); i < payloads.size(); i += 4) if (A->send(idb, payloads[i])) ++accepted;
+            });
+            for (auto& th : threads) th.join();
+            { std::unique_lock<std::mutex> lock(sink->m); sink->cv.wait_for(lock, std::chrono::seconds(10), [&] { return sink->got.size() >= accepted.load(); }); }
+            ::shutdown(sv[0], SHUT_RDWR);
+            for (int spin = 0; spin < 5000 && B->is_connected(ida); ++spin) std::this_thread::sleep_for(std::chrono::milliseconds(1));
+            std::lock_guard<std::mutex> lock(sink->m);
+            std::vector<std::pair<i64, i64>> items;
+            for (const auto& m : sink->got) items.emplace_back(static_cast<i64>(m.size()), checksum(m));
+            std::sort(items.begin(), items.end());
+            out.put(static_cast<i64>(items.size()));
+            for (const auto& [l2, c2] : items) { out.put(l2); out.put(c2); }
+            return;
+        }
         if (mode == 1) {
             if (!A->adopt_outbound_socket(idb, sv[0], true)) { out.put(-10); return; }
             const i64 n = in.next();
@@ -82,6 +113,12 @@ int main() {
                 const i64 len = in.next(), seed = in.next();
                 hvrd::script.clear(); hvrd::pos = 0;
                 for (int k = 0; k < 12; ++k) hvrd::script.push_back(static_cast<unsigned>(in.next() & 0xFF) | (static_cast<unsigned>(k * 2654435761u) & 0xFFFFFF00u));
+                if (in.next() != 0) {
+                    // both ends register a new key for the live session; everything sent so far has been delivered first
+                    const auto nk = in.id32();
+                    { std::unique_lock<std::mutex> lock(sink->m); sink->cv.wait_for(lock, std::chrono::seconds(10), [&] { return sink->got.size() >= expected; }); }
+                    A->register_peer_key(idb, nk); B->register_peer_key(ida, nk);
+                }
                 const auto payload = pattern(len, seed);
                 const bool ok = A->send(idb, payload);
                 sent.push_back(ok ? 1 : 0);
